@@ -213,6 +213,11 @@ class Project:
                 sha256=hashlib.sha256(src.encode()).hexdigest(),
             )
             self.modules[mod.name] = mod
+        if inline:
+            from .normalize import normalize_tree
+
+            for mod in self.modules.values():
+                normalize_tree(mod.tree)
         for mod in self.modules.values():
             self._index_module(mod)
         self.inline_log: list = []
